@@ -175,6 +175,16 @@ func (s *Seq) Post(as []*Annotation, o PostOpts, batch bool) error {
 						delete(s.lastChange, k)
 					}
 				}
+				// ... and a list written in float syntax by the applied part is held untyped in memory like any other
+				for f, t := range a.Toks {
+					if t.Class == "intfloatlist" {
+						ids := strconv.FormatUint(a.ID, 10)
+						if s.untyped[ids] == nil {
+							s.untyped[ids] = map[string]bool{}
+						}
+						s.untyped[ids][f] = true
+					}
+				}
 			}
 		}
 		return nil
